@@ -166,6 +166,43 @@ fn gen_data(r: &mut Rng, depth: u32) -> Vec<u8> {
             v }
     }
 }
+/// Two encodings of the same Plutus data VALUE (equal under the library's PartialEq, which ignores preserved bytes and
+/// list framing) with different bytes: non-minimal integer heads, bignum tags for small values, definite vs indefinite
+/// lists / maps / constructor fields, chunked vs plain byte strings.
+fn gen_eq_pair(r: &mut Rng) -> (Vec<u8>, Vec<u8>) {
+    loop {
+        let (a, b): (Vec<u8>, Vec<u8>) = match r.below(8) {
+            0 => { let n = r.below(24) as u8; (vec![n], match r.below(3) { 0 => vec![0x18, n], 1 => vec![0x19, 0, n], _ => vec![0xc2, 0x41, n] }) }
+            1 => { let n = r.range(24, 255) as u8; (vec![0x18, n], if r.chance(1, 2) { vec![0x19, 0, n] } else { vec![0xc2, 0x41, n] }) }
+            2 => { let n = r.below(24) as u8; (vec![0x20 | n], if r.chance(1, 2) { vec![0x38, n] } else { vec![0xc3, 0x41, n] }) }
+            3 => { // list
+                let k = r.range(1, 3); let d = r.below(2) as u32;
+                let els: Vec<Vec<u8>> = (0..k).map(|_| gen_data(r, d)).collect();
+                let mut a = cbor_head(4, k); let mut b = vec![0x9f];
+                for e in &els { a.extend(e); b.extend(e); } b.push(0xff); (a, b) }
+            4 => { // map
+                let k = r.range(1, 2);
+                let mut a = cbor_head(5, k); let mut b = vec![0xbf];
+                for i in 0..k { let v = gen_data(r, 0); a.extend(cbor_head(0, i)); a.extend(&v); b.extend(cbor_head(0, i)); b.extend(&v); } b.push(0xff); (a, b) }
+            5 => { // bytes: plain vs chunked
+                let k = r.range(2, 10) as usize; let x = r.bytes(k); let cut = r.range(1, k as u64 - 1) as usize;
+                let mut a = cbor_head(2, k as u64); a.extend(&x);
+                let mut b = vec![0x5f]; b.extend(cbor_head(2, cut as u64)); b.extend(&x[..cut]); b.extend(cbor_head(2, (k - cut) as u64)); b.extend(&x[cut..]); b.push(0xff);
+                (a, b) }
+            6 => { // constructor fields definite vs indefinite
+                let tag = cbor_head(6, 121 + r.below(7)); let k = r.below(3);
+                let els: Vec<Vec<u8>> = (0..k).map(|_| gen_data(r, 0)).collect();
+                let mut a = tag.clone(); a.extend(cbor_head(4, k)); let mut b = tag.clone(); b.push(0x9f);
+                for e in &els { a.extend(e); b.extend(e); } b.push(0xff); (a, b) }
+            _ => { // nested: a list holding the two encodings of an inner value
+                let (x, y) = gen_eq_pair(r);
+                let mut a = vec![0x81]; a.extend(x); let mut b = vec![0x81]; b.extend(y); (a, b) }
+        };
+        if let (Ok(x), Ok(y)) = (PlutusData::from_bytes(a.clone()), PlutusData::from_bytes(b.clone())) {
+            if x == y && x.to_bytes() != y.to_bytes() { return (a, b); }
+        }
+    }
+}
 /// A pool of n values with deliberate repetitions: equal values, the same datum with other original bytes,
 /// the same value with its original bytes dropped.
 fn gen_pool(r: &mut Rng, n: usize) -> Vec<PoolItem> {
@@ -175,13 +212,28 @@ fn gen_pool(r: &mut Rng, n: usize) -> Vec<PoolItem> {
         let pick = r.below(10);
         if k > 0 && pick < 2 { let j = r.below(k as u64) as usize; raw.push(raw[j].clone()); continue; }            // exact repetition
         if k > 0 && pick == 2 { let j = r.below(k as u64) as usize; raw.push(('s', raw[j].1.clone())); continue; }  // same value, no original bytes
-        if pick == 3 { let v = r.below(24); raw.push(('o', vec![0x18, v as u8])); raw.push(('o', vec![v as u8])); continue; } // same datum, other bytes
+        if pick == 3 { let (a, b) = gen_eq_pair(r); let fa = if r.chance(1, 4) { 's' } else { 'o' }; if r.chance(1, 2) { raw.push((fa, a)); raw.push(('o', b)); } else { raw.push(('o', b)); raw.push((fa, a)); } continue; } // same value, other bytes
         let d = if r.chance(1, 3) { 0 } else { r.range(1, 3) as u32 };
         let b = gen_data(r, d);
         let flag = if r.chance(1, 5) { 's' } else { 'o' };
         if mk_obj(flag, &b).is_some() { raw.push((flag, b)); }
     }
     raw.truncate(n);
+    finish_pool(raw)
+}
+/// Pairs of value-equal, differently encoded values at positions (2i, 2i+1), decoded or constructed, then a few others.
+fn gen_pool_pairs(r: &mut Rng, npairs: usize) -> Vec<PoolItem> {
+    let mut raw: Vec<(char, Vec<u8>)> = Vec::new();
+    for _ in 0..npairs {
+        let (a, b) = gen_eq_pair(r);
+        let (a, b) = if r.chance(1, 2) { (a, b) } else { (b, a) };
+        raw.push((if r.chance(1, 3) { 's' } else { 'o' }, a));
+        raw.push((if r.chance(1, 3) { 's' } else { 'o' }, b));
+    }
+    for _ in 0..r.range(1, 2) { raw.push(('o', gen_data(r, 1))); }
+    finish_pool(raw)
+}
+fn finish_pool(raw: Vec<(char, Vec<u8>)>) -> Vec<PoolItem> {
     let objs: Vec<PlutusData> = raw.iter().map(|(f, b)| mk_obj(*f, b).unwrap()).collect();
     let ids = assign_ids(&objs);
     raw.into_iter().zip(objs).zip(ids).map(|(((flag, src), obj), id)| PoolItem { id, flag, bytes: obj.to_bytes(), src, obj }).collect()
@@ -770,6 +822,15 @@ fn gen_helper(r: &mut Rng, stream: &str) -> String {
     };
     match stream {
         "dupdef" => { let a = pick_o(r); let b = pick_o(r); let mut v = vec![a, b, a]; if r.chance(1, 2) { v.push(b); } if r.chance(1, 2) { v.insert(0, pick_o(r)); } list = Some((*r.pick(&['t', 'T']), v)); }
+        "eqvalue" => { // value-equal datums written differently, in a list of every kind
+            let pairs: Vec<(usize, usize)> = (0..pool.len()).flat_map(|i| (0..i).map(move |j| (j, i))).filter(|(j, i)| pool[*j].obj == pool[*i].obj && pool[*j].bytes != pool[*i].bytes).collect();
+            if let Some((a, b)) = pairs.get(0).cloned() {
+                let both_o = pool[a].flag == 'o' && pool[b].flag == 'o';
+                let f = if both_o { *r.pick(&['n', 't', 'f', 'T']) } else { 'n' };
+                let mut v = if r.chance(1, 2) { vec![a, b] } else { vec![b, a] }; if r.chance(1, 2) { v.push(a); }
+                list = Some((f, v));
+            }
+        }
         "dupindef" => { let a = all(r); let b = all(r); list = Some(('n', vec![a, b, a, a])); }
         "dupindefdec" => { let a = pick_o(r); let b = pick_o(r); list = Some((*r.pick(&['f', 'F']), vec![a, b, a])); }
         "emptysome" => { list = Some((*r.pick(&['n', 't', 'f']), vec![])); }
@@ -889,7 +950,8 @@ fn gen_native_script(r: &mut Rng) -> Vec<u8> {
 
 fn gen_builder(r: &mut Rng, stream: &str) -> Option<String> {
     let npool = r.range(3, 8) as usize;
-    let pool = gen_pool(r, npool);
+    let npairs = r.range(1, 3) as usize;
+    let pool = if stream == "eqvalue" { gen_pool_pairs(r, npairs) } else { gen_pool(r, npool) };
     let nscripts = r.range(1, 4) as usize;
     let mut scripts: Vec<(u64, Vec<u8>)> = (0..nscripts).map(|_| gen_script(r)).collect();
     if r.chance(1, 3) { let s = scripts[0].clone(); scripts.push(s); }                       // the same script twice in the pool
@@ -900,6 +962,7 @@ fn gen_builder(r: &mut Rng, stream: &str) -> Option<String> {
     let mut subs: Vec<Op> = Vec::new();
     let which: Vec<u64> = match stream {
         "spend" | "stalelang" => vec![0],
+        "eqvalue" => if r.chance(3, 4) { vec![0] } else { vec![] },
         "extra" | "aux" | "auxflip" | "auxwire" => vec![],
         "refonly" => vec![0, 2],
         _ => (0..7u64).filter(|k| *k == 0 || *k == 1 || r.chance(1, 2)).collect(),
@@ -911,6 +974,14 @@ fn gen_builder(r: &mut Rng, stream: &str) -> Option<String> {
         let n = if *k == 0 { r.range(1, 4) } else { r.range(1, 3) } as usize;
         let mut cand = gen_sub(r, *k, n, np, if stream == "refonly" { &[] } else { &scripts }, &mut steps0);
         if stream == "dupdatum" && *k == 0 { let d = r.below(np as u64) as usize; for w in cand.iter_mut() { w.dat = Dat::Val(d); } }
+        if stream == "eqvalue" && *k == 0 {
+            // witness datums (and redeemer data) out of the value-equal pairs; sometimes no witness datum at all
+            for w in cand.iter_mut() {
+                let pi = r.below(npairs as u64) as usize;
+                w.dat = if r.chance(1, 4) { Dat::None } else { Dat::Val(2 * pi + r.below(2) as usize) };
+                if r.chance(1, 2) { w.d = 2 * (r.below(npairs as u64) as usize) + r.below(2) as usize; }
+            }
+        }
         // stale witnesses (inputs only here): an input added with a Plutus witness, then again as a key input
         let stale: Vec<u64> = if *k == 0 && (stream == "stalelang" || r.chance(1, 12)) { (0..r.range(1, 2)).map(|_| r.below(3)).collect() } else { vec![] };
         if stream == "stalelang" && *k == 0 && r.chance(1, 2) { cand.clear(); }
@@ -945,6 +1016,16 @@ fn gen_builder(r: &mut Rng, stream: &str) -> Option<String> {
     if which.contains(&1) || stream == "nocollateral" || !subs.is_empty() { subs.push(Op::Sub(1, ncol, colw, vec![], colnat)); }
     let nextra = match stream { "extra" => r.range(1, 4), "spend" | "dupdatum" => r.below(3), _ => if r.chance(1, 2) { r.below(3) } else { 0 } };
     for _ in 0..nextra { subs.push(Op::Extra(r.below(np as u64) as usize)); }
+    if stream == "eqvalue" {
+        // extra datums value-equal to (but written differently from) datums already there, in both orders
+        for pi in 0..npairs {
+            match r.below(4) {
+                0 => subs.push(Op::Extra(2 * pi)),
+                1 => subs.push(Op::Extra(2 * pi + 1)),
+                _ => { let first = r.below(2) as usize; subs.push(Op::Extra(2 * pi + first)); subs.push(Op::Extra(2 * pi + 1 - first)); if r.chance(1, 3) { subs.push(Op::Extra(2 * pi + first)); } }
+            }
+        }
+    }
     // any order of the additions
     for i in (1..subs.len()).rev() { let j = r.below(i as u64 + 1) as usize; subs.swap(i, j); }
     // the cost-model table: the used languages plus, sometimes, unused ones
@@ -1021,13 +1102,13 @@ fn main() {
         let mut r = Rng::new(seed_from_env() ^ 0xC09C09);
         let mut out = Out::new(&args[2]);
         let scale = if is_thorough() { 10 } else { 1 };
-        let hstreams = ["basic", "basic", "dupdef", "dupindef", "dupindefdec", "emptysome", "noreddatums", "nored", "noredquirk", "langs", "langs"];
+        let hstreams = ["basic", "basic", "eqvalue", "dupdef", "dupindef", "dupindefdec", "emptysome", "noreddatums", "nored", "noredquirk", "langs", "langs"];
         for _ in 0..(40 * scale) { for s in hstreams.iter() {
             let line = gen_helper(&mut r, s);
             let toks: Vec<String> = line.split_whitespace().map(|x| x.to_string()).collect();
             out.emit(&line, &run_case(&toks));
         } }
-        let bstreams = ["spend", "mix", "mix", "mix", "refonly", "extra", "dupdatum", "dupred", "colplutus", "stalelang", "stalelang", "native", "native", "stale", "nohash", "nocollateral", "missingcm", "aux", "aux", "auxflip", "auxflip", "auxwire", "sethash", "recalc", "noopcalc"];
+        let bstreams = ["spend", "mix", "mix", "mix", "refonly", "extra", "dupdatum", "dupred", "colplutus", "eqvalue", "eqvalue", "eqvalue", "stalelang", "stalelang", "native", "native", "stale", "nohash", "nocollateral", "missingcm", "aux", "aux", "auxflip", "auxflip", "auxwire", "sethash", "recalc", "noopcalc"];
         for _ in 0..(30 * scale) { for s in bstreams.iter() {
             if let Some(line) = gen_builder(&mut r, s) {
                 let toks: Vec<String> = line.split_whitespace().map(|x| x.to_string()).collect();
